@@ -28,11 +28,28 @@ def _base_tmp():
     return tempfile.gettempdir()
 
 
+def _sweep_stale(base, max_age_s=6 * 3600):
+    """scratch roots of killed runs (older than a few hours) are removed"""
+    import time
+    try:
+        for fn in os.listdir(base):
+            if fn.startswith(("pcfgsim.", "pcfgmut.", "pcfgseed.", "pcfgregen.")):
+                p = os.path.join(base, fn)
+                try:
+                    if time.time() - os.path.getmtime(p) > max_age_s:
+                        shutil.rmtree(p, ignore_errors=True)
+                except OSError:
+                    pass
+    except OSError:
+        pass
+
+
 def build():
     """Copy REPO's *.py (working tree) to scratch and put it on sys.path.
     Must be called once in the parent before workers are forked."""
     if _state["root"]:
         return _state["code"]
+    _sweep_stale(_base_tmp())
     root = tempfile.mkdtemp(prefix="pcfgsim.", dir=_base_tmp())
     code = os.path.join(root, "repo")
     for dirpath, dirnames, filenames in os.walk(REPO):
